@@ -45,7 +45,9 @@ RULE = (
     "nxseg 4..64 all parities, plus 128..512 quick / ..4096 thorough, overlaps incl. non-integer nxseg*pov, random dt), "
     "max |diff| <= 1e-9 * max |entry|, frequencies 1e-12; malformed stream (length mismatch, pov >= 1) must raise in both. "
     "oracle: the property's battery on the real code (independent numpy Welch lines >= 2, grid, pairing, bilinearity, "
-    "g^2, Hermitian PSD, Parseval, gain-and-delay, grid-line sinusoids). distinct = distinct (kind, method, nxseg, pov, shapes)"
+    "g^2, Hermitian PSD, Parseval, gain-and-delay, grid-line sinusoids; class layer: result.freq/Sy of FDD and pLSCF through SingleSetup in "
+    "multi-step sessions -- run twice, re-added after decimate_data, re-used on a second setup with another fs, two objects, amplitudes 1e-8..1e8 -- "
+    "grid of the record handed over and Welch equivalence). distinct = distinct (kind, method, nxseg, pov, shapes)"
 )
 EXTRA_TRUSTED = [
     "scipy.signal.csd / numpy.fft (the Float model re-computes them from the definition; agreement is the correspondence)",
@@ -380,7 +382,99 @@ def check_sinusoid(p, stats=None):
     return out
 
 
-CHECKS = {"basic": check_basic, "psd": check_psd_parseval, "gaindelay": check_gain_delay, "sinusoid": check_sinusoid}
+def check_classlayer(p, stats=None):
+    """The property observed where users see it (result.freq / result.Sy of FDD and pLSCF run through SingleSetup):
+    one line every fs/nxseg up to Nyquist, fs being the sampling rate of the record the algorithm was handed, and
+    'per' equal to Welch's estimate of that record -- for every run of a session: fresh objects, an object run twice,
+    an object re-added after decimate_data, an object re-used on a second setup with another fs, two objects side by
+    side; non-default run parameters; amplitudes far from 1; the caller's array left untouched."""
+    from pyoma2.algorithms import FDD, pLSCF
+    from pyoma2.setup import SingleSetup
+
+    out = []
+    g = np.random.default_rng(p["npseed"])
+    nch = p["nch"]
+
+    def st(k, v):
+        if stats is not None:
+            stats[k] = max(stats.get(k, 0.0), float(v))
+
+    def mk(spec):
+        kw = dict(name=spec["name"], nxseg=spec["nxseg"], method_SD=spec["method"], pov=spec["pov"])
+        if spec["cls"] == "pLSCF":
+            return pLSCF(ordmax=spec["ordmax"], **kw)
+        return FDD(**kw)
+
+    algs = {a["name"]: (a, mk(a)) for a in p["algs"]}
+    handed = {}  # name -> (copy of the record handed over, its fs)
+    setups = []
+    originals = []
+    ss = None
+
+    def verify(tag, name):
+        spec, alg = algs[name]
+        rec, fs = handed[name]
+        n = spec["nxseg"]
+        nf = n // 2 + 1
+        res = alg.result
+        freq, Sy = np.asarray(res.freq), np.asarray(res.Sy)
+        where = f"{spec['cls']}[{spec['method']}] {tag}"
+        if freq.shape != (nf,) or Sy.shape != (nch, nch, nf):
+            out.append((f"class-grid-shape-{spec['method']}", f"{where}: shapes freq {freq.shape}, Sy {Sy.shape}; expected {nf} lines", None, None))
+            return
+        ef = float(np.abs(freq - np.arange(nf) * fs / n).max() / (fs / 2))
+        st("class_grid", ef)
+        if ef > 1e-12:
+            out.append((f"class-grid-freq-{spec['method']}",
+                        f"{where}: result.freq has lines every {freq[1] - freq[0]:.6g} up to {freq[-1]:.6g}; the record handed over has fs = {fs:.6g}, "
+                        f"nxseg = {n}: expected lines every {fs / n:.6g} up to {fs / 2 if n % 2 == 0 else (nf - 1) * fs / n:.6g}",
+                        [float(freq[1] - freq[0]), float(freq[-1])], [fs / n, (nf - 1) * fs / n]))
+        if spec["method"] == "per":
+            E = indep_welch(rec.T, rec.T, fs, n, _nov(n, spec["pov"]))
+            e = float(np.abs(Sy[..., 2:] - E[..., 2:]).max() / np.abs(E).max())
+            st("class_welch", e)
+            if e > 1e-9:
+                out.append(("class-welch-per", f"{where}: result.Sy differs from Welch's one-sided density of the record handed over "
+                            f"(fs = {fs:.6g}) on lines >= 2 (rel {e:.2e})", e, 1e-9))
+        else:
+            # 'cor': Hermitian-symmetric roles -- entry (i,j) pairs channel i with channel j of the same record: S_ii real part positive sum
+            Sd = np.array([Sy[i, i, :].real.sum() for i in range(nch)])
+            if not np.all(Sd > 0):
+                out.append(("class-cor-auto-nonpositive", f"{where}: an auto spectrum sums to a non-positive value", Sd.tolist(), None))
+
+    for si, step in enumerate(p["steps"]):
+        op = step[0]
+        if op == "setup":
+            fs, N, amp = step[1], step[2], step[3]
+            x = g.standard_normal((N, nch)) * amp
+            x[:, -1] += 0.5 * x[:, 0]  # correlated channels
+            originals.append((x, x.copy()))
+            ss = SingleSetup(x, fs=fs)
+            setups.append(ss)
+        elif op == "add":
+            for name in step[1]:
+                ss.add_algorithms(algs[name][1])
+                handed[name] = (np.array(ss.data, dtype=float, copy=True), float(ss.fs))
+        elif op == "decimate":
+            ss.decimate_data(q=step[1])
+        elif op == "run":
+            for name in step[1]:
+                ss.run_by_name(name)
+                verify(f"after steps {p['steps'][: si + 1]}", name)
+        elif op == "run_all":
+            ss.run_all()
+            for name in list(ss.algorithms.keys()):
+                verify("after run_all", name)
+        elif op == "recheck":  # results of objects that were not touched must not have changed either
+            for name in step[1]:
+                verify("re-read later in the session", name)
+    for (x, x0) in originals:
+        if not np.array_equal(x, x0):
+            out.append(("class-input-modified", "the data array passed to SingleSetup was modified in place", None, None))
+    return out
+
+
+CHECKS = {"basic": check_basic, "psd": check_psd_parseval, "gaindelay": check_gain_delay, "sinusoid": check_sinusoid, "classlayer": check_classlayer}
 
 
 def _run_case(ctx, p):
@@ -407,6 +501,44 @@ def _nx(ctx, lo=16):
     if r < 0.85:
         return 8 * rng.randint((lo + 7) // 8, hi // 8)
     return rng.randint(lo, hi)
+
+
+def _gen_classlayer(ctx, seed):
+    rng = ctx.rng
+    fss = [100.0, 51.2, 200.0, 256.0, 25.0, 1000.0, 12.5, 0.5]
+    nch = rng.randint(2, 4)
+
+    def spec(name, cls=None):
+        n = rng.choice([32, 64, 128, 256, 100, 48])
+        cls = cls or rng.choice(["FDD", "FDD", "pLSCF"])
+        method = rng.choice(["per", "per", "cor"])
+        pov = _pick_pov(rng, n) if method == "per" else 0.5
+        if pov > 0.8:
+            pov = 0.5
+        return {"name": name, "cls": cls, "nxseg": n, "method": method, "pov": pov, "ordmax": rng.randint(3, 6)}
+
+    a, b = spec("A"), spec("B")
+    amp = 10.0 ** rng.randint(-8, 8)
+    fs1 = rng.choice(fss)
+    fs2 = rng.choice([f for f in fss if f != fs1])
+    q = rng.choice([2, 3, 4, 5])
+    N = lambda n, k=1: k * max(a["nxseg"], b["nxseg"]) * rng.randint(6, 12) + rng.randint(0, 50)  # noqa: E731
+    scen = rng.choice(["decimate-readd", "second-setup", "run-twice", "two-objects", "decimate-not-readd"])
+    if scen == "decimate-readd":
+        steps = [["setup", fs1, N(0, q), amp], ["add", ["A", "B"]], ["run", ["A"]], ["decimate", q], ["add", ["A"]], ["run", ["A"]],
+                 ["add", ["B"]], ["run", ["B"]], ["recheck", ["A"]]]
+    elif scen == "second-setup":
+        steps = [["setup", fs1, N(0), amp], ["add", ["A"]], ["run_all"], ["setup", fs2, N(0), amp * 10.0 ** rng.randint(-3, 3)],
+                 ["add", ["A", "B"]], ["run_all"]]
+    elif scen == "run-twice":
+        steps = [["setup", fs1, N(0), amp], ["add", ["A", "B"]], ["run", ["A"]], ["run", ["A", "B"]], ["recheck", ["A"]]]
+    elif scen == "two-objects":
+        steps = [["setup", fs1, N(0), amp], ["add", ["A"]], ["run", ["A"]], ["setup", fs2, N(0), amp], ["add", ["B"]], ["run", ["B"]],
+                 ["recheck", ["A", "B"]]]
+    else:  # the object keeps the record it was handed (not re-added): result must describe THAT record
+        steps = [["setup", fs1, N(0, q), amp], ["add", ["A"]], ["run", ["A"]], ["decimate", q], ["run", ["A"]], ["add", ["B"]], ["run", ["B"]]]
+    return {"kind": "classlayer", "npseed": seed, "nxseg": a["nxseg"], "pov": a["pov"], "na": nch, "nch": nch, "scenario": scen,
+            "algs": [a, b], "steps": steps}
 
 
 def oracle(ctx, scale):
@@ -460,6 +592,16 @@ def oracle(ctx, scale):
         p = {"kind": "sinusoid", "npseed": seed(), "nxseg": n, "pov": _pick_pov(rng, n), "na": rng.randint(2, 5),
              "k0": rng.randint(2, n // 2 - 2), "Ndat": n * rng.randint(2, 6) + rng.randint(0, n - 1), "dt": rng.choice(dts)}
         _run_case(ctx, p)
+    # (5) the class layer: FDD / pLSCF results through SingleSetup, multi-step sessions
+    _oracle_classlayer(ctx, scale)
+
+
+def _oracle_classlayer(ctx, scale):
+    seed = lambda: ctx.rng.getrandbits(40)  # noqa: E731
+    for _ in range(ctx.n(14, 150) * scale):
+        p = _gen_classlayer(ctx, seed())
+        _run_case(ctx, p)
+        ctx.count("class_" + p["scenario"])
 
 
 def replay(rec):
